@@ -1,6 +1,10 @@
 """C14  Message streams are fragmentation-proof and gated by the handshake.
 
 R-C14-1  the four reassembly loops, by symbolic execution of one loop iteration from every header/body state
+         (class _Loop: two-state style with a per-connection expected length; class _Peek: stateless style that
+         recognises a whole frame afresh from the front of the buffer, bounds compared as linear forms over the
+         header width H, the decoded length L and len(buffer); loop_shape picks the style by whether any mutable
+         per-connection state takes part in a test against len(buffer))
 R-C14-2  the handshake gate of security.TwistedWrapper (install, restore, residual hand-over, failure closes)
 R-C14-3  framing agreement (width / byte order) of every struct.pack / struct.unpack of the channels
 R-C14-4  blocking (client side) receivers accumulate until the announced size
@@ -1706,6 +1710,13 @@ class _Peek(_Loop):
         return super().assign(t, self.canon(val), stmt, st)
 
     def on_stmt(self, s, st):
+        tg = s.targets if isinstance(s, (ast.Assign, ast.Delete)) else [s.target] if isinstance(s, (ast.AugAssign, ast.AnnAssign)) else []
+        for t in _flat_targets(tg):
+            b = t
+            while isinstance(b, (ast.Subscript, ast.Attribute)) and loc_of(b) != self.bufloc:
+                b = b.value
+            if b is not t and loc_of(b) == self.bufloc:
+                self.problem('consume', s, f'{norm(s)[:80]} modifies the buffer in place: not understood (only byte strings that are re-assigned are supported)')
         if isinstance(s, ast.AugAssign):
             l = loc_of(s.target)
             if l is not None:
@@ -1713,6 +1724,10 @@ class _Peek(_Loop):
                 st = self.assign(s.target, val, s, st)
             return (st,)
         return super().on_stmt(s, st)
+
+    def appended(self, st):
+        """the received data is in the buffer (or is known to be empty, so that there is nothing to append)"""
+        return 'ext' in st.flags or _implied(_lin(0, [(('len', ('param', self.param)), -1)]), st.facts)
 
     # ------------------------------------------------------------ expressions
     def frame_of(self, d):
@@ -1867,8 +1882,10 @@ class _Peek(_Loop):
         for st in states:
             if st.it is not None:
                 self.problem('chunk', s, 'nested reassembly loops are not understood')
-            if 'ext' not in st.flags:
+            if not self.appended(st):
                 self.problem('data-use', s, 'the loop can be entered on a path where the received data has not been appended to the buffer')
+            elif 'ext' not in st.flags:
+                st = _flag(st, 'noext-ok')  # nothing to append: the received data is known to be empty on this path
             head.add(self.normalise(st))
         exits = set()
         while True:
@@ -1898,7 +1915,7 @@ class _Peek(_Loop):
         self.count('exits')
         if 'lost' in st.flags:
             return  # accepted: after a visible loseConnection() nothing more has to be delivered
-        if 'ext' not in st.flags:
+        if 'ext' not in st.flags and 'noext-ok' not in st.flags:
             self.problem('data-use', node, 'the function can return without having appended the received data to the buffer')
         B = self.read(self.bufloc, st)
         if B == self.BH:
@@ -3125,6 +3142,22 @@ def _rule4(ctx, rep):
                         f'{norm(c)} {why}: a short read is taken for the complete field',
                     )
         r.extra['recv_sites'] = sites
+        # a file object made over the socket reads ahead (8 KiB) into a buffer of its own; made per call, that buffer - and the
+        # bytes of the following message in it - is thrown away when the call returns (added after seeded change C14-11:
+        # message.receive read header and body through `with s.makefile('rb')`; a coalesced second message was lost)
+        for mn in ANCHOR_MODULES:
+            for f in sorted(_module_funcs(prog, mn), key=lambda f: f.qname):
+                for c in f.calls():
+                    if isinstance(c.func, ast.Attribute) and c.func.attr == 'makefile':
+                        r.instance()
+                        rep.analysed(f)
+                        r.fail(
+                            f'{f.qname}:{norm(c)[:60]}',
+                            where(f, c),
+                            f'{f.qname} reads the stream through {norm(c)[:40]}: the buffered reader takes more than the message from the socket and is discarded '
+                            'with its read-ahead when the function returns, so messages that arrive coalesced are lost',
+                        )
+                        sites += 1
         if not sites:
             raise AnalysisError('no socket recv() found in the anchored modules: blocking receivers moved elsewhere')
 
@@ -3138,7 +3171,10 @@ def check(ctx):
         '(1) each of the four reassembly functions is executed symbolically for one loop iteration from every state '
         '(expected length None / n, buffer arbitrary): the received data only extends the buffer, every slice is dominated by a '
         'successful needed <= len(buffer) test on the same contents, exactly the needed bytes leave the front once, header and body '
-        'states alternate, and the function returns only with needed > len(buffer) established for the state it leaves; the '
+        'states alternate, and the function returns only with needed > len(buffer) established for the state it leaves '
+        '(a loop without an expected-length state is decided in its stateless form instead: header decoded from buffer[0:H] under '
+        'H <= len(buffer), message taken from exactly buffer[H:H+L] and the buffer advanced by exactly H+L only under '
+        'H+L <= len(buffer), otherwise the buffer is left alone); the '
         'handshake phases are walked as (phase, chunk size) configurations; '
         '(2) the handshake wrapper replaces dataReceived at construction, only the last phase restores it, only with signature '
         'and echo verified, hands the residual buffer over before clearing it, a failed phase closes and leaves the loop, and every '
@@ -3161,6 +3197,15 @@ def check(ctx):
     _rule2(ctx, rep)
     _rule3(ctx, rep)
     _rule4(ctx, rep)
+    from . import shared
+
+    shared.def_time_defaults(
+        ctx, rep, 'R-C14-5',
+        lambda mn: mn in ANCHOR_MODULES or mn == 'dawgie.security',
+        'no function of the channel modules (handshake, framing, farm, database and log protocols) has a default argument that is evaluated at import time (a call such as a clock or random source, or a run-time-assigned context setting)',
+        'what should be fresh per connection (the handshake challenge: time stamp and random id) is computed once per process: a recorded handshake replays on a later connection and its application frame is processed',
+    )
+
     return rep
 
 
@@ -3298,21 +3343,47 @@ VARIANTS = [
             pre='pass', body='self.__buf[4 : 4 + length]', advance='self.__buf = self.__buf[length + 4 :]'), None),
     V('peek: farm, completeness cached in a boolean local, unpack_from', 'N', _F, 'Hand.dataReceived', _F_OLD,
       _peek(decode="length = struct.unpack_from('>I', self.__buf)[0]\n            complete = self.__blen + length <= len(self.__buf)", test='not complete'), None),
+    V('peek: farm, local working copy written back after the loop', 'N', _F, 'Hand.dataReceived', 'self.__buf += data\n        ' + _F_OLD,
+      "pending = self.__buf + data\n"
+      "        while len(pending) >= 4:\n"
+      "            (size,) = struct.unpack('>I', pending[:4])\n"
+      "            if 4 + size > len(pending):\n"
+      "                break\n"
+      "            frame, pending = pending[4 : 4 + size], pending[4 + size :]\n"
+      "            self._process(dawgie.pl.message.loads(frame))\n"
+      "        self.__buf = pending\n", None),
+    V('peek: farm, frame length and completeness through helpers', 'N', _F, 'Hand.dataReceived',
+      'def dataReceived(self, data):\n        # protocols are independent even if similar today\n        # pylint: disable=duplicate-code\n'
+      '        self.__buf += data\n        ' + _F_OLD,
+      "def _frame_len(self):\n"
+      "        return struct.unpack('>I', self.__buf[: self.__blen])[0]\n\n"
+      "    def _complete(self, size):\n"
+      "        return self.__blen + size <= len(self.__buf)\n\n"
+      "    def dataReceived(self, data):\n"
+      "        if data:\n"
+      "            self.__buf = self.__buf + data\n"
+      "        while self.__blen <= len(self.__buf):\n"
+      "            size = self._frame_len()\n"
+      "            if not self._complete(size):\n"
+      "                return\n"
+      "            msg = dawgie.pl.message.loads(self.__buf[self.__blen :][:size])\n"
+      "            self.__buf = self.__buf[self.__blen + size :]\n"
+      "            self._process(msg)\n", None),
+    V('peek: farm, received data appended twice', 'B', _F, 'Hand.dataReceived', 'self.__buf += data\n        ' + _F_OLD,
+      'self.__buf += data\n        self.__buf += data\n        ' + _peek(), 'R-C14-1'),
+    V('peek: farm, append skipped for some non-empty data', 'B', _F, 'Hand.dataReceived', 'self.__buf += data\n        ' + _F_OLD,
+      'if len(data) > 1:\n            self.__buf += data\n        ' + _peek(), 'R-C14-1'),
     V('peek: farm, completeness test forgets the header bytes', 'B', _F, 'Hand.dataReceived', _F_OLD, _peek(test='len(self.__buf) < length'), 'R-C14-1'),
     V('peek: farm, buffer advanced by the body length only', 'B', _F, 'Hand.dataReceived', _F_OLD, _peek(advance='self.__buf = self.__buf[length:]'), 'R-C14-1'),
     V('peek: farm, message decoded from buffer[0:L]', 'B', _F, 'Hand.dataReceived', _F_OLD, _peek(body='self.__buf[:length]'), 'R-C14-1'),
     V('peek: farm, incomplete frame spins (continue)', 'B', _F, 'Hand.dataReceived', _F_OLD, _peek(leave='continue'), 'R-C14-1'),
     V('peek: farm, incomplete frame drops the buffer', 'B', _F, 'Hand.dataReceived', _F_OLD, _peek(leave="self.__buf = b''\nbreak"), 'R-C14-1'),
     V('peek: farm, exactly complete frame left behind', 'B', _F, 'Hand.dataReceived', _F_OLD, _peek(test='len(self.__buf) <= self.__blen + length'), 'R-C14-1'),
-    V('peek: farm, one frame per call (no loop)', 'B', _F, 'Hand.dataReceived', _F_OLD,
-      _peek(head='if self.__blen <= len(self.__buf):', leave='return'), 'R-C14-1'),
     V('peek: farm, leaves right after a frame', 'B', _F, 'Hand.dataReceived', _F_OLD, _peek(advance='self.__buf = self.__buf[end:]\n            break'), 'R-C14-1'),
     V('peek: farm, loop entered with fewer bytes than the header', 'B', _F, 'Hand.dataReceived', _F_OLD, _peek(head='while self.__blen < len(self.__buf) + 2:'), 'R-C14-1'),
     V('peek: farm, loop needs one byte more than the header', 'B', _F, 'Hand.dataReceived', _F_OLD, _peek(head='while self.__blen < len(self.__buf):'), 'R-C14-1'),
     V('peek: farm, length decoded from the wrong bytes', 'B', _F, 'Hand.dataReceived', _F_OLD,
       _peek(decode="length = struct.unpack('>I', self.__buf[1 : self.__blen + 1])[0]"), 'R-C14-1'),
-    V('peek: farm, message starts one byte late', 'B', _F, 'Hand.dataReceived', _F_OLD, _peek(body='self.__buf[self.__blen + 1 : end]'), 'R-C14-1'),
-    V('peek: farm, buffer advanced one byte too far', 'B', _F, 'Hand.dataReceived', _F_OLD, _peek(pre='end = self.__blen + length', body='self.__buf[self.__blen : end]', advance='self.__buf = self.__buf[end + 1:]'), 'R-C14-1'),
     V('peek: farm, stale length from before the loop', 'B', _F, 'Hand.dataReceived', _F_OLD,
       _peek(head="length = struct.unpack('>I', self.__buf[: self.__blen])[0] if self.__blen <= len(self.__buf) else 0\n        while self.__blen <= len(self.__buf):", decode='pass'), 'R-C14-1'),
     V('peek: farm, received data replaces the buffer', 'B', _F, 'Hand.dataReceived', 'self.__buf += data\n        ' + _F_OLD, 'self.__buf = data\n        ' + _peek(), 'R-C14-1'),
@@ -3385,6 +3456,8 @@ VARIANTS = [
     V('framing: log header little-endian', 'B', _L, 'LogSink.dataReceived', "struct.unpack('>L', self.__buf[:length])", "struct.unpack('<L', self.__buf[:length])", 'R-C14-3'),
     V('framing: network order spelled !', 'N', 'pl/message.py', 'receive', "struct.unpack('>I', buf)", "struct.unpack('!I', buf)", None),
     # ---- R-C14-4
+    V('recv: farm client reads through a per-call buffered file', 'B', 'pl/message.py', 'receive', 'while len(buf) < length:\n        buf += s.recv(length - len(buf))', "with s.makefile('rb') as stream:\n        buf = stream.read(length)", 'R-C14-4'),
+    V('challenge built by a helper with definition-time defaults', 'B', 'security.py', None, 'class TwistedWrapper:', 'def _challenge(stamp=datetime.datetime.now(datetime.UTC), unique=random.random()):\n    return str(stamp) + str(unique)\n\n\nclass TwistedWrapper:', 'R-C14-5'),
     V('recv: farm client reads the body in one go', 'B', 'pl/message.py', 'receive', 'while len(buf) < length:\n        buf += s.recv(length - len(buf))', 'buf = s.recv(length)', 'R-C14-4'),
     V('recv: db client header read once', 'B', _C, 'Connector.__do', 'while len(buf) < 4:', 'if len(buf) < 4:', 'R-C14-4'),
     V('recv: db client asks for the total again', 'B', _C, 'Connector.__do', 'buf += s.recv(length - len(buf))', 'buf += s.recv(length)', 'R-C14-4'),
